@@ -97,7 +97,11 @@ class EquationParser(object):
             if len(varname) == 0:
                 msg += 'Line without a variable name - ignored: "%s"\n' % (equation,)
                 continue
-            if not varname.replace('(0)', '').strip().isidentifier():
+            name_part = varname
+            if name_part.endswith('(0)'):
+                # the initial condition of a variable: 'x(0)' or 'x (0)' (the marker once, at the end)
+                name_part = name_part[:-3].strip()
+            if not name_part.isidentifier():
                 # 'x <= 5', 'x(k-1) = 3', 'a b = 1': what stands left of the '=' is not a name (nor the initial condition of one).
                 msg += 'Line whose left hand side is not a variable name - ignored: "%s"\n' % (equation,)
                 continue
